@@ -769,6 +769,29 @@ def stray_row(ctx):
         ctx.notes.append(f"stray-row reproducer no longer fails as recorded: ctor {acc}, reverse {rev}")
 
 
+# ================================================================ known finding: GNFA edge into the initial state
+def gnfa_into_initial(ctx):
+    """The class docstring of GNFA says the initial state has no incoming transitions; validate() does not check it
+    (a row only has to cover states - {initial}); to_regex() on such a definition raises KeyError.  The model mirrors
+    the acceptance (C19_example_gnfa); the comparison with the model runs through check_defs."""
+    k = next((k for k in ctx.known if k["id"] == "gnfa_validate_accepts_edge_into_initial_state" and k["status"] == "open"), None)
+    d = dict(states={0, 1, 2}, input_symbols={"a"},
+             transitions={0: {1: "a", 2: None}, 1: {1: "a", 2: "a", 0: "a"}}, initial_state=0, final_state=2)
+    acc = ctor_outcome("gnfa", d)
+    rx = outcome(lambda: GNFA(**d).to_regex()) if acc[0] == "ok" else None
+    still = acc[0] == "ok" and rx[0] == "err" and rx[2] == "KeyError"
+    ctx.case(("gnfa", "into-initial"), True, {"class": "gnfa", "def": repr(d), "ctor": acc, "to_regex": repr(rx)})
+    check_defs(ctx, [("gnfa", d, [], None, "into-initial")])
+    if still:
+        if k is not None:
+            ctx.report_known(k)
+        else:
+            ctx.violation("GNFA.validate() accepts a transition into the initial state (class docstring: none come in); "
+                          "to_regex() then raises KeyError", {"kind": "gnfa-into-initial", "def": repr(d)})
+    else:
+        ctx.notes.append(f"gnfa-into-initial reproducer no longer fails as recorded: ctor {acc}, to_regex {rx}")
+
+
 # ================================================================ battery (streams b-d), run in a worker process
 WORDS_LEN = 5
 # exceptions an operation documents for valid operands
@@ -1181,6 +1204,7 @@ def run(ctx):
     procs = spawn_batteries(ctx, n)
     try:
         stray_row(ctx)
+        gnfa_into_initial(ctx)
         stream_a(ctx)
         if ctx.tier == "thorough":
             exhaustive(ctx)
@@ -1216,6 +1240,8 @@ def replay(ctx, case):
             ctx.violations.append("replayed")
     elif kind == "stray":
         stray_row(ctx)
+    elif kind == "gnfa-into-initial":
+        gnfa_into_initial(ctx)
     else:
         print("nothing to replay for kind", kind)
     print("replay:", "VIOLATION reproduced" if ctx.violations else "no disagreement")
